@@ -417,6 +417,12 @@ def item_inventory(path, contracted=()):
                 # the definition itself (fields, field attributes such as #[serde(..)], repr): derive-generated code depends on it
                 out.append(prefix + '%s %s derive(%s) #%s' % (it.kind, it.name, ', '.join(ders),
                                                             hashlib.sha256(strip(src[it.start:it.end]).encode()).hexdigest()[:10]))
+            elif it.kind == 'type':
+                # a type alias picks lengths / containers for the generic code (e.g. `type Hash = HeapByteArray<32>`)
+                out.append(prefix + 'type ' + strip(src[it.kw:it.end]))
+            elif it.kind == 'macro':
+                # item-level macro invocations generate impls that no contract sees (e.g. impl_index_heapbytes!(..))
+                out.append(prefix + 'macro ' + hashlib.sha256(strip(src[it.kw:it.end]).encode()).hexdigest()[:10] + ' ' + strip(src[it.kw:it.end])[:60])
             elif it.kind == 'mod' and it.children and it.name not in ('tests', 'test'):
                 walk(it.children, prefix + 'mod %s :: ' % it.name)
     walk(items, '')
